@@ -41,7 +41,7 @@ def cases(draw, tier="quick"):
         elif mode == 3:
             p = ""
         else:
-            p = draw(st.text(st.sampled_from(alpha), max_size=3))
+            p = draw(S.txt(alpha, max_size=3))
         pairs.append([p, draw(S.identifiers(d))])
     return {"spec": {"delimiter": d, "records": recs}, "pairs": pairs}
 
